@@ -674,7 +674,11 @@ with PolarsImpl.impl_store.impl_manager as impl:
         return x.rank("dense").cast(pl.Int64)
 
     @impl(ops.shift)
-    def _shift(x, n, fill_value=None):
+    def _shift(x, n, fill_value=None, *, _sig):
+        if _sig[0].is_int() and len(_sig) > 2 and _sig[2].is_float():
+            # polars computes the result as a float, but reports the integer
+            # type of `x` in the schema of the lazy frame
+            x = x.cast(pl.Float64)
         return x.shift(n, fill_value=fill_value)
 
     @impl(ops.is_in)
